@@ -219,3 +219,53 @@ Proof.
   unfold addrs in Hnd. apply NoDup_app_l in Hnd.
   exact (NoDup_flat_disjoint _ _ _ _ _ _ Hnd Hij Hi Hj Ha).
 Qed.
+
+(* ------------------- operations issued between compile() and commit_subroutine() *)
+Definition queue_op (o : sop) : Prop :=
+  match o with SGate _ | SMeasArr _ | SMeasReg _ _ => True | _ => False end.
+
+Lemma conn_state_step : forall ex c c' o, queue_op o -> conn_state c = conn_state c' ->
+  conn_state (apply_op ex c o) = conn_state (apply_op ex c' o).
+Proof.
+  intros ex c c' o Hq H. unfold conn_state in *. inversion H as [[H1 H2 H3 H4]].
+  destruct o; simpl in Hq; try contradiction; simpl; rewrite H1, H2, H3, H4; reflexivity.
+Qed.
+
+Lemma conn_state_run : forall ex l c c', Forall queue_op l -> conn_state c = conn_state c' ->
+  conn_state (run_ops ex c l) = conn_state (run_ops ex c' l).
+Proof.
+  induction l as [|o l IH]; intros c c' Hq H; simpl; [exact H|].
+  inversion Hq; subst. apply IH; [assumption|]. apply conn_state_step; assumption.
+Qed.
+
+Lemma compile_flush_state : forall ex c, conn_state (apply_op ex c SCompile) = conn_state (apply_op ex c SFlush).
+Proof. intros ex c. simpl. destruct (pop_pending ex c); reflexivity. Qed.
+
+Lemma instantiate_state : forall ex c v, conn_state (apply_op ex c (SInstantiate v)) = conn_state c.
+Proof. reflexivity. Qed.
+
+Lemma commit_state : forall ex c, conn_state (apply_op ex c SCommit) = conn_state c.
+Proof. intros ex c. simpl. destruct (held c); reflexivity. Qed.
+
+Lemma pop_pending_state : forall ex c c', conn_state c = conn_state c' -> pop_pending ex c = pop_pending ex c'.
+Proof.
+  intros ex c c' H. unfold conn_state in H. inversion H as [[H1 H2 H3 H4]]. unfold pop_pending. rewrite H1, H2, H3. reflexivity.
+Qed.
+
+(* Operations queued after compile() — between compile and instantiate (mid1) and
+   between instantiate and commit (mid2) — belong to the NEXT subroutine: committing the
+   pre-compiled subroutine leaves their commands, their arrays to declare/return and
+   their registers to return pending, exactly as if the first block had been flushed
+   instead; the next flush therefore sends the same subroutine in both flows. *)
+Theorem ops_between_compile_and_commit_go_to_next : forall ex c v mid1 mid2,
+  Forall queue_op mid1 -> Forall queue_op mid2 ->
+  let pre := apply_op ex (run_ops ex (apply_op ex (run_ops ex (apply_op ex c SCompile) mid1) (SInstantiate v)) mid2) SCommit in
+  let dir := run_ops ex (run_ops ex (apply_op ex c SFlush) mid1) mid2 in
+  conn_state pre = conn_state dir /\ pop_pending ex pre = pop_pending ex dir.
+Proof.
+  intros ex c v mid1 mid2 H1 H2 pre dir.
+  assert (Hs : conn_state pre = conn_state dir).
+  { unfold pre, dir. rewrite commit_state. apply conn_state_run; [exact H2|].
+    rewrite instantiate_state. apply conn_state_run; [exact H1|]. apply compile_flush_state. }
+  split; [exact Hs | apply pop_pending_state; exact Hs].
+Qed.
